@@ -140,30 +140,16 @@ def _cmp(a, b, path=""):
     return None if abs(a - b) <= 1e-9 else path
 
 
-def judge(ctx, spec):
+def judge_result(ctx, spec, ev, idx):
+    """Judge one Evaluation against the spec it was computed from (truths and scores re-derived from the spec)."""
     task, vocab = spec["task"], spec["vocab"]
-    if n_items(spec) == 0:
-        ctx.ood("no_evaluated_item")  # quantifier: at least one evaluated item overall
-        return
-    try:
-        ev, idx = run_task(ctx, spec, twice=(ctx.evaluations % 3 == 0))
-    except Exception as e:
-        key = f"raises:{task}:{type(e).__name__}"
-        if len(vocab) == 1:
-            key = "raises:single_tag_vocabulary"
-        elif task == "sound_event_detection" and no_labelled_item(spec) and "0 sample" in str(e):
-            key = "raises:sound_event_detection:no_labelled_item"
-        elif task == "sound_event_classification" and any(c["only"] == "both" and not c["events"] for c in spec["clips"]):
-            key = f"raises:{task}:clip_without_sound_events"
-        ctx.violate_exc("raises", key, e, spec=spec)
-        return
     ctx.mon("task_results")
     c04.check_invariants(ctx, ev, f"task:{task}")
     evaluated = {str(E._u("clip", ci)): ci for ci, c in enumerate(spec["clips"]) if c["only"] == "both"}
     got_clips = [str(ce.annotations.clip.uuid) for ce in ev.clip_evaluations]
     if sorted(got_clips) != sorted(evaluated):
         ctx.violate("evaluated_clips", f"evaluated_clips:{task}", observed=len(got_clips), expected=len(evaluated), spec=spec)
-        return
+        return False
     ml = task == "clip_multilabel_classification"
     Y, S = [], []
     for ce in ev.clip_evaluations:
@@ -205,6 +191,75 @@ def judge(ctx, spec):
     scores = [ce.score for ce in ev.clip_evaluations]
     if any(s is not None for s in scores):
         _mean_ok(ctx, ev.score, scores, "evaluation", spec)
+    return True
+
+
+def edited_in_place(ctx, spec):
+    """The SAME prediction / annotation objects are edited in place (two clips swap their predicted tags, or two
+    sound events swap their annotated tags) and evaluated again: the result must follow the current content."""
+    import copy as _copy
+
+    task = spec["task"]
+    both = [i for i, c in enumerate(spec["clips"]) if c["only"] == "both"]
+    if ctx.evaluations % 3 or len(both) < 2:
+        return
+    spec2 = _copy.deepcopy(spec)
+    cps, cas, tags, idx = E.build(spec)
+    by_clip_p = {str(cp.clip.uuid): cp for cp in cps}
+    by_clip_a = {str(ca.clip.uuid): ca for ca in cas}
+    a, b = both[0], both[-1]
+    ua, ub = str(E._u("clip", a)), str(E._u("clip", b))
+    try:
+        with warnings.catch_warnings():
+            warnings.simplefilter("ignore")
+            _task(task)(cps, cas, tags)                      # first evaluation: whatever it remembers is now in place
+            if task.startswith("clip_"):
+                pa, pb = by_clip_p[ua], by_clip_p[ub]
+                pa.tags, pb.tags = pb.tags, pa.tags
+                spec2["clips"][a]["pred_tags"], spec2["clips"][b]["pred_tags"] = spec["clips"][b]["pred_tags"], spec["clips"][a]["pred_tags"]
+            else:
+                ea = [i for i, e in enumerate(spec["clips"][a]["events"]) if e["kind"] in ("ann", "both_same_event") and e.get("shared") is None]
+                eb = [i for i, e in enumerate(spec["clips"][b]["events"]) if e["kind"] in ("ann", "both_same_event") and e.get("shared") is None]
+                if not ea or not eb:
+                    return
+                i, j = ea[0], eb[0]
+                sa = next(x for x in by_clip_a[ua].sound_events if str(x.uuid) == str(E._u("sea", a, i)))
+                sb = next(x for x in by_clip_a[ub].sound_events if str(x.uuid) == str(E._u("sea", b, j)))
+                sa.tags, sb.tags = sb.tags, sa.tags
+                spec2["clips"][a]["events"][i]["ann_tags"], spec2["clips"][b]["events"][j]["ann_tags"] = spec["clips"][b]["events"][j]["ann_tags"], spec["clips"][a]["events"][i]["ann_tags"]
+            ev2 = _task(task)(cps, cas, tags)
+    except Exception as e:
+        if task == "sound_event_detection" and no_labelled_item(spec2) and "0 sample" in str(e):
+            return
+        ctx.violate_exc("raises", f"raises_after_in_place_edit:{task}:{type(e).__name__}", e, spec=spec2)
+        return
+    ctx.mon("after_in_place_edit")
+    n0 = len(ctx.violations)
+    judge_result(ctx, spec2, ev2, idx)
+    for v in ctx.violations[n0:]:
+        v["key"] = v["key"] + ":after_in_place_edit"
+
+
+def judge(ctx, spec):
+    task, vocab = spec["task"], spec["vocab"]
+    if n_items(spec) == 0:
+        ctx.ood("no_evaluated_item")  # quantifier: at least one evaluated item overall
+        return
+    try:
+        ev, idx = run_task(ctx, spec, twice=(ctx.evaluations % 3 == 0))
+    except Exception as e:
+        key = f"raises:{task}:{type(e).__name__}"
+        if len(vocab) == 1:
+            key = "raises:single_tag_vocabulary"
+        elif task == "sound_event_detection" and no_labelled_item(spec) and "0 sample" in str(e):
+            key = "raises:sound_event_detection:no_labelled_item"
+        elif task == "sound_event_classification" and any(c["only"] == "both" and not c["events"] for c in spec["clips"]):
+            key = f"raises:{task}:clip_without_sound_events"
+        ctx.violate_exc("raises", key, e, spec=spec)
+        return
+    if not judge_result(ctx, spec, ev, idx):
+        return
+    edited_in_place(ctx, spec)
     # permutation of the clips leaves everything unchanged
     n = len(spec["clips"])
     if n > 1:
